@@ -229,24 +229,50 @@ def run(ctx, lean_ok):
         v = _orig_density(self, m, T_, P_)
         rec.setdefault('calls', []).append((np.array(m, dtype=float).copy(), float(v)))
         return v
+    from tamoc import dbm_p
+
+    def indep_density(fm, fp_type, m, T_, P_):
+        """density of phase fp_type by a call that does not go through FluidParticle (dbm_p.density with the constants of a
+        separately constructed FluidMixture): the oracle of the model and the phase-exists test are independent of the
+        density evaluations made inside masses_by_diameter / diameter"""
+        rho = dbm_p.density(T_, P_, np.asarray(m, dtype=float), fm.M, fm.Pc, fm.Tc, fm.Vc, fm.omega, fm.delta, fm.Aij, fm.Bij,
+                            fm.delta_groups, fm.calc_delta, fm.C_pen, fm.C_pen_T)
+        return float(rho[fp_type, 0])
+
     def _part_case(k):
         nonlocal skipped
-        fp_type = k % 2
-        pool = GASES if fp_type == 0 else LIQUIDS
-        nc = r.randint(1, min(6, len(pool)))
-        comp = r.sample(pool, nc)
-        if fp_type == 1 and r.random() < 0.3:
-            comp = comp + r.sample(GASES[:4], 1)     # live oil: some dissolved gas
-            nc += 1
+        two_phase = (k % 10 == 9)
+        fp_type = 2 if two_phase else k % 2
+        if two_phase:
+            comp = r.choice([['methane', 'n-decane'], ['methane', 'ethane', 'n-hexane'], ['methane', 'ethane', 'n-hexane', 'n-decane'],
+                             ['carbon_dioxide', 'methane', 'n-heptane']])
+            nc = len(comp)
+        else:
+            pool = GASES if fp_type == 0 else LIQUIDS
+            nc = r.randint(1, min(6, len(pool)))
+            comp = r.sample(pool, nc)
+            if fp_type == 1 and r.random() < 0.3:
+                comp = comp + r.sample(GASES[:4], 1)     # live oil: some dissolved gas
+                nc += 1
         fp = dbm.FluidParticle(comp, fp_type=fp_type)
+        fm = dbm.FluidMixture(comp)
         M = [float(x) for x in fp.M]
-        yk = np.array(rand_positive(r, nc))
-        if r.random() < 0.8:
+        yk = np.array(rand_positive(r, nc)) if not two_phase else np.array([r.uniform(0.05, 1.) for _ in comp])
+        if two_phase or r.random() < 0.8:
             yk = yk / np.sum(yk)
         Tt = r.uniform(275., 320.)
-        Pp = 10 ** r.uniform(5, math.log10(4e7))
+        Pp = 10 ** r.uniform(5, math.log10(4e7) if not two_phase else 7.3)
         de = r.choice([1e-5, 1e-1, 10 ** r.uniform(-5, -1), 10 ** r.uniform(-5, -1), 10 ** r.uniform(-4, -2)])
         case = {'composition': comp, 'fp_type': fp_type, 'T': Tt, 'P': Pp, 'de': de, 'yk': [float(x) for x in yk]}
+        ctx.evaluations += 1
+        # does the phase exist at this state?  decided WITHOUT the particle object
+        m1 = yk * np.array(M)
+        if not two_phase:
+            rho_ind1 = indep_density(fm, fp_type, m1, Tt, Pp)
+            if not (math.isfinite(rho_ind1) and rho_ind1 > 0):
+                skipped += 1
+                ctx.count('particle skipped (independent density not positive/finite: phase absent)')
+                return
         rec.clear()
         dbm.FluidParticle.density = recording_density
         try:
@@ -254,27 +280,16 @@ def run(ctx, lean_ok):
             calls1 = list(rec.get('calls', []))
             rec.clear()
             de2 = float(fp.diameter(m, Tt, Pp))
-            calls2 = list(rec.get('calls', []))
         finally:
             dbm.FluidParticle.density = _orig_density
-        rho1 = calls1[0][1] if calls1 else float('nan')
-        rho2 = calls2[0][1] if calls2 else float('nan')
-        ctx.evaluations += 1
-        if not (len(calls1) == 1 and len(calls2) == 1 and math.isfinite(rho1) and rho1 > 0 and math.isfinite(rho2) and rho2 > 0):
-            skipped += 1
-            ctx.count('particle skipped (density not positive/finite: phase absent)')
-            return
         ctx.count('particle fp_type=%d' % fp_type)
         ctx.count('de decade 1e%d' % int(math.floor(math.log10(de) + 1e-9)))
-        ctx.nontrivial.add(('fp',) + key12(M, yk, Tt, Pp, de))
-        # hypothesis of the theorem, sampled: the density is the same for the scaled masses
-        track('density(m)/density(one mole)', relerr(rho1, rho2))
-        hyp_ok = close(rho1, rho2, 1e-9)
-        if not hyp_ok:
-            ctx.count('hypothesis density-intensive violated beyond 1e-9 (reported, not a C15 violation)')
+        ctx.nontrivial.add(('fp',) + key12(M, yk, Tt, Pp, de, fp_type))
+        # two-phase particles go through the flash: round trips at the flash tolerance
+        rt_tol = 1e-8 if two_phase else 1e-10
         e = relerr(de2, de)
-        track('diameter(masses_by_diameter(de))', e)
-        if hyp_ok and not close(de2, de, 1e-10):
+        track('diameter(masses_by_diameter(de)) fp_type=%d' % fp_type, e)
+        if not close(de2, de, rt_tol):
             ctx.violation('roundtrip:fluid-diameter', 'FluidParticle.diameter(masses_by_diameter(de)) != de', dict(case, got=de2))
         yk_back = fp.mol_frac(m)
         want = yk / np.sum(yk)
@@ -286,19 +301,25 @@ def run(ctx, lean_ok):
             ctx.violation('masses-not-positive', 'masses_by_diameter returned a non-positive mass', dict(case, m=[float(x) for x in m]))
         # masses -> (diameter, mole fractions) -> masses
         m_back = fp.masses_by_diameter(de2, Tt, Pp, yk_back)
-        track('masses_by_diameter(diameter(m), mol_frac(m))', max(relerr(float(a), float(b)) for a, b in zip(m_back, m)))
-        if hyp_ok and not close([float(x) for x in m_back], [float(x) for x in m], 1e-9):
+        track('masses_by_diameter(diameter(m), mol_frac(m)) fp_type=%d' % fp_type, max(relerr(float(a), float(b)) for a, b in zip(m_back, m)))
+        if not close([float(x) for x in m_back], [float(x) for x in m], 1e-7 if two_phase else 1e-9):
             ctx.violation('roundtrip:fluid-masses', 'masses_by_diameter(diameter(m), mol_frac(m)) != m', dict(case, m=[float(x) for x in m], got=[float(x) for x in m_back]))
         if k < 2:
             ctx.sample(dict(case, masses=[float(x) for x in m], diameter_back=de2))
-        arg1 = [float(x) for x in calls1[0][0]]
+        if two_phase:
+            return        # the two-phase density (flash + volume average) has no independent oracle here: predicates only
+        # the model is fed with the INDEPENDENT density of its own question (m1 = yk*M), resp. of the returned masses
+        rho_ind2 = indep_density(fm, fp_type, m, Tt, Pp)
+        track('density(m)/density(one mole) (independent)', relerr(rho_ind1, rho_ind2))
+        arg1 = [float(x) for x in calls1[0][0]] if calls1 else []
 
-        def cb(o, m=m, arg1=arg1, case=case):
-            corr('Model.Convert.massesByDiameter vs FluidParticle.masses_by_diameter', o[0], [float(x) for x in m], case)
-            corr('Model.Convert.massesByDiameter density question vs recorded argument of FluidParticle.density', o[1], arg1, case)
-        ask(req('Convert.masses_by_diameter', M, de, [float(x) for x in yk], rho1), cb)
-        ask(req('Convert.diameter', [float(x) for x in m], rho2),
-            lambda o, de2=de2, case=case: corr('Model.Convert.diameter vs FluidParticle.diameter', o[0], de2, case))
+        def cb(o, m=m, arg1=arg1, m1=m1, case=case):
+            corr('Model.Convert.massesByDiameter (independent density) vs FluidParticle.masses_by_diameter', o[0], [float(x) for x in m], case, tol=1e-10)
+            corr('Model.Convert.massesByDiameter density question vs argument recorded at FluidParticle.density', o[1], arg1, case)
+            corr('Model.Convert.massesByDiameter density question vs yk*M', o[1], [float(x) for x in m1], case)
+        ask(req('Convert.masses_by_diameter', M, de, [float(x) for x in yk], rho_ind1), cb)
+        ask(req('Convert.diameter', [float(x) for x in m], rho_ind2),
+            lambda o, de2=de2, case=case: corr('Model.Convert.diameter (independent density) vs FluidParticle.diameter', o[0], de2, case, tol=1e-10))
 
     for k in range(npart):
         try:
@@ -356,6 +377,7 @@ def run(ctx, lean_ok):
         for i, u in enumerate(units_all):
             ask(req('Convert.ambient_key', i), lambda o, u=u, i=i: ctx.oblige('Lean ambient table key %d is %r' % (i, u), uncodes(o[0]) == u, repr(o)) if uncodes(o[0]) != u else None)
         std_of = {}
+        one_unit_2d = {}
 
         def shape_cases(u):
             """(label, python input, units argument, rows after atleast_2d, units list)"""
@@ -381,6 +403,15 @@ def run(ctx, lean_ok):
             mat = [[r.uniform(-50., 5000.) for _ in range(ncol)] for _ in range(nrow)]
             out.append(('2d', np.array(mat), us, mat, us))
             out.append(('2d-list', [list(x) for x in mat], us, mat, us))
+            # a 2-D array whose values ALL carry the same single unit ("2-D inputs" of the quantifier with one unit string)
+            nr1, nc1 = r.randint(2, 4), r.randint(2, 4)
+            mat1 = [[r.uniform(1., 5000.) for _ in range(nc1)] for _ in range(nr1)]
+            out.append(('2d-1unit', np.array(mat1), u, mat1, [u]))
+            out.append(('2d-1unit-list', np.array(mat1), [u], mat1, [u]))
+            # fewer unit strings than columns (outside the documented contract: compared with the model, columns that do
+            # have a unit are checked, what happens to the others is only counted)
+            if ncol >= 3:
+                out.append(('fewer-units', np.array(mat), us[:ncol - 1], mat, us[:ncol - 1]))
             return out
 
         reps = ctx.n(1, 20)
@@ -406,19 +437,34 @@ def run(ctx, lean_ok):
                     nr, ncl = len(rows), len(rows[0])
                     flat_in = [x for rw in rows for x in rw]
                     # per-element unit: column j of the (un-transposed) input carries ulist[j] (or the single unit)
-                    el_units = [(ulist[0] if len(ulist) == 1 else ulist[j]) for _i in range(nr) for j in range(ncl)]
+                    el_units = [(ulist[0] if len(ulist) == 1 else (ulist[j] if j < len(ulist) else None)) for _i in range(nr) for j in range(ncl)]
 
                     def cb(o, flat=flat, case=case):
                         corr('Model.Convert.convertUnits vs ambient.convert_units', o[0], flat, case)
                     ask(req('Convert.ambient_array', nr, ncl, flat_in, *[codes(x) for x in ulist]), cb)
                     # the documented factor of every element (property predicate; Std table through the driver)
-                    for x, y, eu in zip(flat_in, flat, el_units):
-                        std_of.setdefault(eu, []).append((x, y, case))
+                    if label.startswith('2d-1unit'):
+                        one_unit_2d.setdefault(u, []).append((flat_in, flat, case))
+                    elif label == 'fewer-units':
+                        for i_ in range(nr):
+                            for j_ in range(ncl):
+                                if j_ < len(ulist):
+                                    std_of.setdefault(ulist[j_], []).append((flat_in[i_ * ncl + j_], flat[i_ * ncl + j_], case))
+                                elif flat[i_ * ncl + j_] != flat_in[i_ * ncl + j_]:
+                                    ctx.count('fewer unit strings than columns: a column without unit is not returned unchanged (zeroed) — outside the documented contract, counted only')
+                    else:
+                        for x, y, eu in zip(flat_in, flat, el_units):
+                            std_of.setdefault(eu, []).append((x, y, case))
                     # returned unit labels
                     exp_units = None
                     if isinstance(ures, list):
                         exp_units = ures
                     case['units_out'] = exp_units
+
+                    def cbl(o, exp_units=exp_units, case=case):
+                        if uncodes(o[0]) != '\n'.join(exp_units or []):
+                            corr('Model.Convert.outUnits vs the unit list returned by ambient.convert_units', float('nan'), 0.0, dict(case, model=uncodes(o[0]).split('\n')))
+                    ask(req('Convert.ambient_labels', *[codes(x) for x in ulist]), cbl)
                     std_of.setdefault(('label', tuple(ulist)), []).append((exp_units, case))
                     if not np.array_equal(np.array(data, dtype=float), in_copy):
                         ctx.violation('ambient-mutates-input', 'convert_units modified its input array', case)
@@ -440,6 +486,27 @@ def run(ctx, lean_ok):
                                       dict(case, x=x, got=y, documented=want, factor=f, offset=off))
             ask(req('Convert.ambient_std', codes(u)), cb)
 
+        def check_2d_one_unit(u, items):
+            def cb(o):
+                for flat_in, flat, case in items:
+                    if o == [0]:
+                        want = list(flat_in)
+                        lim = [0.0] * len(want)
+                    else:
+                        f, off, tol = o[0], o[1], o[3]
+                        want = [x * f + off for x in flat_in]
+                        lim = [(tol + 1e-12) * (abs(x * f) + abs(off)) + 1e-300 for x in flat_in]
+                    badpos = [i_ for i_, (y, w, l) in enumerate(zip(flat, want, lim)) if not abs(y - w) <= l]
+                    if badpos:
+                        if any(flat[i_] == 0.0 for i_ in badpos):
+                            ctx.violation('convert-units-2d-one-unit-zeroes', 'convert_units on a 2-D array with ONE unit string converts one row (transposed into the '
+                                          'first column) and returns zeros elsewhere', dict(case, got=flat, documented=want))
+                        else:
+                            ctx.violation('ambient-factor-2d-one-unit:' + u, 'convert_units does not convert every value of a 2-D array with one unit string', dict(case, got=flat, documented=want))
+            ask(req('Convert.ambient_std', codes(u)), cb)
+        for u2, items in one_unit_2d.items():
+            check_2d_one_unit(u2, items)
+
         label_items = []
         for kx, items in list(std_of.items()):
             if isinstance(kx, tuple):
@@ -456,21 +523,25 @@ def run(ctx, lean_ok):
             ask(req('Convert.ambient_std', codes(u)), cb)
 
         def labels_check(_o):
-            mangled = 0
             for ulist, items in label_items:
                 for got, case in items:
                     want = [std_out.get(u) for u in ulist]
                     if any(w is None for w in want):
-                        # a unit string the table does not know (the standard unit kg/m^2/s): values are checked above;
-                        # the label comes back character by character (`out_units += units[i]`) — recorded, not demanded
-                        if got != [w if w is not None else u for w, u in zip(want, ulist)]:
-                            mangled += 1
+                        # a unit string the table does not know (the table's own standard unit kg/m^2/s): the values are checked
+                        # above (unchanged); the label of a value already in a standard unit must come back unchanged as well
+                        exp = [w if w is not None else u for w, u in zip(want, ulist)]
+                        if got != exp:
+                            split = []
+                            for w, u in zip(want, ulist):
+                                split += [w] if w is not None else list(u)
+                            if got == split:
+                                ctx.violation('convert-units-label-split', 'convert_units returns the label of an unrecognised (here: standard) unit split into '
+                                              'characters (`out_units += units[i]`)', dict(case, want=exp))
+                            else:
+                                ctx.violation('ambient-unit-label', 'convert_units does not return the unit label of a standard unit unchanged', dict(case, want=exp))
                         continue
                     if got != want:
                         ctx.violation('ambient-unit-label', 'convert_units does not report the documented standard unit', dict(case, want=want))
-            if mangled:
-                ctx.notes.append('observation (outside the property): for the unrecognised-but-standard unit string kg/m^2/s the returned unit '
-                                 'list is split into characters by `out_units += units[i]` (%d calls); the values are unchanged' % mangled)
         ask(req('Convert.table_sizes'), labels_check)
 
         # xarray front end (ambient.xr_convert_units)
